@@ -133,3 +133,41 @@ def run(F, R):
     val = prep.calls_to(r"extensions::\{impl#\d+\}::validation$")
     ok = bool(pq) and bool(val) and all(prep.must_pass([p.bb for p in pq], v.bb) for v in val)
     R.check(ok, "R11.2", "prepare_request:parse-stage-before-validation", prep.where(), "parse_query (with depth check) dominates validation", "validation can run before the recursion-depth check")
+
+    R.rule("R11.3", "the recursive input-value validator is invoked at most once per value on any path: in is_valid_input_value no recursive call (direct, or "
+                    "through a local closure that wraps one) is reachable from another one without passing the enclosing loop's next() — a check-then-recompute "
+                    "(`if f(v).is_some() { return f(v) }`) doubles the work at every nesting level of a failing value (2^depth)")
+    iv = F.one(r"async_graphql::validation::utils::is_valid_input_value$", kind="fn")
+    wrap = {}
+    for (cbb, cdef, st) in iv.closures_created():
+        cb = F.get(cdef)
+        if cb and any(c.callee == iv.defp for x in F.with_nested(cb) for c in x.calls()):
+            wrap[st[0][0]] = cdef
+    sites = []
+    for c in iv.calls():
+        if c.callee == iv.defp:
+            sites.append((c.bb, c.where(), "direct"))
+        elif c.callee in set(wrap.values()):
+            sites.append((c.bb, c.where(), "closure"))
+        elif (c.declared or "").endswith(("Fn::call", "FnMut::call_mut", "FnOnce::call_once")) and c.args and c.args[0][0] in ("c", "m"):
+            o, _ = trace(iv, c.args[0])
+            root = c.args[0][1][0]
+            locs = {root} | {d_[1][1][1][0] for d_ in iv.defs_of_local(root) if d_[1][0] == "ref"}
+            if locs & set(wrap):
+                sites.append((c.bb, c.where(), "closure"))
+        elif c.callee and re.search(r"::(find_map|map|for_each|any|all|filter_map)$", c.callee):
+            # iterator adaptor driving a wrapping closure: one invocation per element, counted as one site
+            for a in c.args[1:]:
+                if a[0] in ("c", "m") and a[1][0] in wrap:
+                    sites.append((c.bb, c.where(), "per-element"))
+    nexts = [c.bb for c in iv.calls() if c.callee and re.search(r"::next$", c.callee)]
+    R.floor("R11.3", "recursive validation sites", len(sites), 3)
+    bad = []
+    for (a_bb, a_w, a_k) in sites:
+        for (b_bb, b_w, b_k) in sites:
+            if a_bb == b_bb:
+                continue
+            if b_bb in iv.reachable_after(a_bb, avoid=nexts):
+                bad.append("%s -> %s" % (a_w.split(":")[-1], b_w.split(":")[-1]))
+    R.check(not bad, "R11.3", "is_valid_input_value:one-recursive-validation-per-path", iv.where(), "%d sites, none reachable from another" % len(sites),
+            "a second recursive validation is reachable after a first one on the same path (lines %s): a failing value nested d levels deep costs 2^d validations" % bad[:3])
